@@ -27,6 +27,8 @@ use std::sync::{Arc, RwLock};
 struct Store {
     ints: RwLock<BTreeSet<u64>>,
     names: RwLock<BTreeSet<String>>,
+    u128s: RwLock<BTreeSet<u128>>,
+    i128s: RwLock<BTreeSet<i128>>,
 }
 type Ctx = Arc<Store>;
 
@@ -123,6 +125,54 @@ async fn names_ep(
     })?))
 }
 
+/// the same endpoint over 128-bit integer keys (values outside the 64-bit
+/// range are JSON numbers a serde_json::Value cannot hold exactly)
+macro_rules! wide_endpoint {
+    ($ep:ident, $sel:ident, $ty:ty, $field:ident, $path:literal) => {
+        #[derive(Serialize, Deserialize, JsonSchema, Debug, Clone)]
+        struct $sel {
+            order: PaginationOrder,
+            last: $ty,
+        }
+        #[endpoint { method = GET, path = $path }]
+        async fn $ep(
+            rqctx: RequestContext<Ctx>,
+            query: Query<PaginationParams<ScanP, $sel>>,
+        ) -> Result<HttpResponseOk<ResultsPage<$ty>>, HttpError> {
+            let p = query.into_inner();
+            let limit = rqctx.page_limit(&p)?.get() as usize;
+            let coll = rqctx.context().$field.read().unwrap();
+            let (order, items): (PaginationOrder, Vec<$ty>) = match &p.page {
+                WhichPage::First(ScanP { order }) => {
+                    let order = order.unwrap_or(PaginationOrder::Ascending);
+                    let v = match order {
+                        PaginationOrder::Ascending => coll.iter().take(limit).cloned().collect(),
+                        PaginationOrder::Descending => coll.iter().rev().take(limit).cloned().collect(),
+                    };
+                    (order, v)
+                }
+                WhichPage::Next($sel { order, last }) => {
+                    let v = match order {
+                        PaginationOrder::Ascending => {
+                            coll.range((Bound::Excluded(*last), Bound::Unbounded)).take(limit).cloned().collect()
+                        }
+                        PaginationOrder::Descending => {
+                            coll.range((Bound::Unbounded, Bound::Excluded(*last))).rev().take(limit).cloned().collect()
+                        }
+                    };
+                    (*order, v)
+                }
+            };
+            Ok(HttpResponseOk(ResultsPage::new(items, &order, |k: &$ty, o: &PaginationOrder| $sel {
+                order: *o,
+                last: *k,
+            })?))
+        }
+    };
+}
+wide_endpoint!(u128_ep, SelU128, u128, u128s, "/u128");
+wide_endpoint!(i128_ep, SelI128, i128, i128s, "/i128");
+
 struct Server {
     _rt: tokio::runtime::Runtime,
     server: dropshot::HttpServer<Ctx>,
@@ -131,12 +181,19 @@ struct Server {
 }
 fn start() -> Server {
     let rt = live::rt();
-    let ctx: Ctx = Arc::new(Store { ints: RwLock::new(BTreeSet::new()), names: RwLock::new(BTreeSet::new()) });
+    let ctx: Ctx = Arc::new(Store {
+        ints: RwLock::new(BTreeSet::new()),
+        names: RwLock::new(BTreeSet::new()),
+        u128s: RwLock::new(BTreeSet::new()),
+        i128s: RwLock::new(BTreeSet::new()),
+    });
     let server = {
         let _g = rt.enter();
         let mut api = ApiDescription::new();
         api.register(items_ep).unwrap();
         api.register(names_ep).unwrap();
+        api.register(u128_ep).unwrap();
+        api.register(i128_ep).unwrap();
         live::start_server(api, ctx.clone(), live::ServerOpts::default())
     };
     Server { _rt: rt, server, ctx, conn: None }
@@ -233,6 +290,9 @@ enum Case {
     /// one full scan of a collection keyed by strings (any order, duplicates
     /// dropped: the server holds them in a BTreeSet)
     Names { order: String, names: Vec<String>, limit: Option<u64> },
+    /// a collection keyed by u128 (`signed` false) or i128 (true); keys as
+    /// decimal strings (a JSON number of the case file could not hold them)
+    Wide { order: String, signed: bool, keys: Vec<String>, limit: Option<u64> },
     /// the same with generated names: prefix + rank in decimal, zero-padded
     NamesPad { order: String, pad: Pad, limit: Option<u64> },
     /// a scan too long to write out page by page: integer keys (`keys`) or
@@ -291,6 +351,23 @@ fn scan_at(
     limit: Option<u64>,
     key: &dyn Fn(&Value) -> Option<u64>,
 ) -> ScanObs {
+    let decode = |body: &[u8]| -> Option<(Option<String>, Vec<u64>)> {
+        let page: PageIn = serde_json::from_slice(body).ok()?;
+        let items: Option<Vec<u64>> = page.items.iter().map(key).collect();
+        Some((page.next_page, items?))
+    };
+    scan_with(srv, path, order, n, limit, &decode)
+}
+
+/// `decode`: response body -> (next_page, items as numbers)
+fn scan_with(
+    srv: &mut Server,
+    path: &str,
+    order: &str,
+    n: usize,
+    limit: Option<u64>,
+    decode: &dyn Fn(&[u8]) -> Option<(Option<String>, Vec<u64>)>,
+) -> ScanObs {
     let mut pages: Vec<PageObs> = vec![];
     let mut tok: Option<String> = None;
     let lim = limit.map(|l| format!("&limit={}", l)).unwrap_or_default();
@@ -312,17 +389,12 @@ fn scan_at(
         if resp.status != 200 {
             return ScanObs::Failed(resp.status, pages);
         }
-        let page: PageIn = match serde_json::from_slice(&resp.body) {
-            Ok(p) => p,
-            Err(_) => return ScanObs::Failed(0, pages),
-        };
-        let items: Option<Vec<u64>> = page.items.iter().map(key).collect();
-        let items = match items {
-            Some(i) => i,
+        let (next_page, items) = match decode(&resp.body) {
+            Some(x) => x,
             None => return ScanObs::Failed(0, pages),
         };
-        let next = page.next_page.clone();
-        pages.push(PageObs { items, token: page.next_page });
+        let next = next_page.clone();
+        pages.push(PageObs { items, token: next_page });
         match next {
             None => return ScanObs::Done(pages),
             Some(t) => tok = Some(t),
@@ -507,6 +579,60 @@ fn exec(case: &Case, srv: &mut Option<Server>) -> Line {
                 tags.push("names:token-with-dash-or-underscore".to_string());
             }
             Line { group: "names", case: cj, obs: j_obs(&o), coq, tags, nontrivial: true }
+        }
+        Case::Wide { order, signed, keys, limit } => {
+            // ascending, distinct, as the server's BTreeSet holds them
+            let mut sorted: Vec<i128>;
+            let usorted: Vec<u128>;
+            #[derive(Deserialize)]
+            struct PU {
+                next_page: Option<String>,
+                items: Vec<u128>,
+            }
+            #[derive(Deserialize)]
+            struct PI {
+                next_page: Option<String>,
+                items: Vec<i128>,
+            }
+            let (o, nums, n): (ScanObs, Vec<String>, usize) = if *signed {
+                sorted = keys.iter().map(|k| k.parse().expect("i128")).collect();
+                sorted.sort();
+                sorted.dedup();
+                *s.ctx.i128s.write().unwrap() = sorted.iter().cloned().collect();
+                let n = sorted.len();
+                let sr = sorted.clone();
+                let decode = move |body: &[u8]| -> Option<(Option<String>, Vec<u64>)> {
+                    let p: PI = serde_json::from_slice(body).ok()?;
+                    Some((p.next_page, p.items.iter().map(|k| sr.binary_search(k).map(|i| i as u64).unwrap_or(n as u64)).collect()))
+                };
+                (scan_with(s, "/i128", order, n, *limit, &decode), sorted.iter().map(|k| k.to_string()).collect(), n)
+            } else {
+                let mut u: Vec<u128> = keys.iter().map(|k| k.parse().expect("u128")).collect();
+                u.sort();
+                u.dedup();
+                usorted = u;
+                *s.ctx.u128s.write().unwrap() = usorted.iter().cloned().collect();
+                let n = usorted.len();
+                let sr = usorted.clone();
+                let decode = move |body: &[u8]| -> Option<(Option<String>, Vec<u64>)> {
+                    let p: PU = serde_json::from_slice(body).ok()?;
+                    Some((p.next_page, p.items.iter().map(|k| sr.binary_search(k).map(|i| i as u64).unwrap_or(n as u64)).collect()))
+                };
+                (scan_with(s, "/u128", order, n, *limit, &decode), usorted.iter().map(|k| k.to_string()).collect(), n)
+            };
+            let coq = format!(
+                "(CScanNames {} (NNum {}) {} {})",
+                g_order(order),
+                g_list(&nums, |k| if k.starts_with('-') { format!("({})%Z", k) } else { format!("{}%Z", k) }),
+                g_opt(limit, |l| l.to_string()),
+                g_obs(&o)
+            );
+            let tags = vec![
+                format!("wide:{}:{}:limit{}", if *signed { "i128" } else { "u128" }, order, lim_band(limit)),
+                format!("wide:{}", match &o { ScanObs::Done(_) => "scan-complete".to_string(), ScanObs::Failed(c, _) => format!("failed-{}", c), ScanObs::Runaway(_) => "runaway".to_string() }),
+            ];
+            let _ = n;
+            Line { group: "wide", case: cj, obs: j_obs(&o), coq, tags, nontrivial: true }
         }
         Case::NamesPad { order, pad, limit } => {
             let sorted = pad.names();
@@ -919,6 +1045,22 @@ fn generate(opts: &Opts) -> Vec<Case> {
     }
     gen_names(&mut rng, opts.thorough, &mut cases);
     gen_large(opts.thorough, &mut cases);
+    // keys of 128 bits, straddling the 64-bit bounds
+    let ukeys: Vec<String> = ["0", "1", "18446744073709551614", "18446744073709551615", "18446744073709551616", "18446744073709551617",
+        "1267650600228229401496703205376", "340282366920938463463374607431768211454", "340282366920938463463374607431768211455"]
+        .iter().map(|x| x.to_string()).collect();
+    let ikeys: Vec<String> = ["-170141183460469231731687303715884105728", "-170141183460469231731687303715884105727", "-1267650600228229401496703205376",
+        "-9223372036854775809", "-9223372036854775808", "-1", "0", "1", "9223372036854775807", "9223372036854775808", "18446744073709551615",
+        "18446744073709551616", "170141183460469231731687303715884105727"]
+        .iter().map(|x| x.to_string()).collect();
+    for (signed, keys) in [(false, &ukeys), (true, &ikeys)] {
+        for o in ["ascending", "descending"] {
+            let n = keys.len() as u64;
+            for l in [None, Some(1), Some(2), Some(3), Some(n - 1), Some(n), Some(n + 1)] {
+                cases.push(Case::Wide { order: o.to_string(), signed, keys: keys.clone(), limit: l });
+            }
+        }
+    }
     // the driver cuts the output into consecutive shards: mix cheap and costly cases
     rng.shuffle(&mut cases);
     cases
